@@ -34,7 +34,8 @@ def one(item):
     sid = f"{pid}-{mname}"
     dst = os.path.join(DST, sid)
     os.makedirs(dst, exist_ok=True)
-    shutil.copy(os.path.join(src, "patch.diff"), os.path.join(dst, "patch.diff"))
+    if not os.path.exists(os.path.join(dst, "patch.diff")):  # an existing patch may have been re-based onto the current HEAD
+        shutil.copy(os.path.join(src, "patch.diff"), os.path.join(dst, "patch.diff"))
     shutil.copy(os.path.join(src, "demo_test.go"), os.path.join(dst, "demo_test.go"))
     notes = ""
     np = os.path.join(src.replace("m2p", "m2"), "notes.md")
